@@ -35,6 +35,12 @@
 (*            context (write_namespaces: context._clean_inheritance_tokens()*)
 (*            per namespace; TemplateNamespace.__init__ -> _populate_self_  *)
 (*            namespace writes self/local into that copy).                  *)
+(*  "incpos"  where the <%include> stands in the includer and where the      *)
+(*            values of T's <%page args="a=0, b=0"/> can come from: args=,  *)
+(*            a render() kwarg, a body-level <% %> assignment made before,  *)
+(*            the includer's own <%page args> default; "the context second" *)
+(*            is the context visible AT THE INCLUDE POINT (a top-level def  *)
+(*            called by name runs on context._locals(__M_locals)).          *)
 (*  "include" an includer (alone, derived of a base, or base of a derived) *)
 (*            includes T (alone or inheriting TB) with args/context        *)
 (*            patterns for T's <%page args="a=0, b=0"/>.                   *)
@@ -118,7 +124,11 @@ NsKinds == {"fa", "fb", "inl", "mod"}
 Perms(n) == {q \in [1..n -> NsKinds] : \A i, j \in 1..n : i # j => q[i] # q[j]}
 MultiConfigs == {[fam |-> "multins", decl |-> d, assign |-> a, spell |-> sp] :
                    d \in UNION {Perms(n) : n \in 1..3}, a \in BOOLEAN, sp \in {"rel", "abs"}}
-Configs == UriConfigs \cup NsConfigs \cup InhConfigs \cup IncConfigs \cup MultiConfigs
+Sources == {"args", "render", "assign", "page"}
+IncPositions == {"body", "topdef", "selfdef", "calltag", "nested"}
+IncPosConfigs == {[fam |-> "incpos", pos |-> p, sa |-> x, sb |-> y] :
+                    p \in IncPositions, x \in SUBSET Sources, y \in {{}, {"args"}, {"render"}, {"assign"}, {"page"}}}
+Configs == UriConfigs \cup NsConfigs \cup InhConfigs \cup IncConfigs \cup MultiConfigs \cup IncPosConfigs
 
 InitWith(c) == /\ cfg = c /\ pc = 1 /\ hop = 1 /\ cur = <<>> /\ memo = {} /\ imp = {} /\ sattr = {} /\ nsctx = <<>> /\ out = <<>> /\ phase = "run"
 Init == /\ cfg \in Configs /\ pc = 1 /\ hop = 1 /\ cur = <<>> /\ memo = {} /\ imp = {} /\ sattr = {} /\ nsctx = <<>> /\ out = <<>> /\ phase = "run"
@@ -197,6 +207,28 @@ Include ==
   /\ pc' = 2
   /\ UNCHANGED <<cfg, nsctx, hop, cur, memo, imp, sattr, phase>>
 
+(* ================================================================== family "incpos" *)
+(* Values: args= gives 1, render() 2, the body assignment 3, the includer's own <%page args="z=4"/> default 4,      *)
+(* T's own default 0; -1 = the name is not in the context.                                                          *)
+(* Which context the include statement runs on: a top-level def called BY NAME from the body (and a def nested in   *)
+(* it) gets context._locals(__M_locals) -- the body's assignments and page arguments are in it; the body itself, a  *)
+(* <%call> body written in the body, and a def reached through self. run on the render context.                     *)
+Live(pos) == pos \in {"topdef", "nested"}
+CtxAt(pos, S) ==
+  IF Live(pos) /\ "assign" \in S THEN 3
+  ELSE IF Live(pos) /\ "page" \in S THEN (IF "render" \in S THEN 2 ELSE 4)     \* the page argument holds render()'s value if given
+  ELSE IF "render" \in S THEN 2 ELSE -1
+(* _kwargs_for_include: args first, then the context at the include point, else the target's default *)
+PageArg(pos, S) == IF "args" \in S THEN 1 ELSE IF CtxAt(pos, S) # -1 THEN CtxAt(pos, S) ELSE 0
+IncludeAt ==
+  /\ phase = "run" /\ cfg.fam = "incpos" /\ pc = 1
+  /\ out' = <<"open|M", "open|T",
+              "arg|a|" \o ToString(PageArg(cfg.pos, cfg.sa)), "ctx|a|" \o ToString(CtxAt(cfg.pos, cfg.sa)),
+              "arg|b|" \o ToString(PageArg(cfg.pos, cfg.sb)), "ctx|b|" \o ToString(CtxAt(cfg.pos, cfg.sb)),
+              "close|T", "close|M">>
+  /\ pc' = 2
+  /\ UNCHANGED <<cfg, nsctx, hop, cur, memo, imp, sattr, phase>>
+
 (* ================================================================== family "multins" *)
 (* the template a namespace of that kind refers to: what self/local are inside its defs.  An inline def is *)
 (* written in the declaring template M itself; a module function has no self.                              *)
@@ -222,10 +254,10 @@ Probe ==
 
 Finished ==
   CASE cfg.fam = "uri" -> pc > Len(cfg.reqs) [] cfg.fam = "nsprec" -> pc > 3
-    [] cfg.fam = "inh" -> hop = 2 /\ pc > cfg.N [] cfg.fam = "include" -> pc > 1
+    [] cfg.fam = "inh" -> hop = 2 /\ pc > cfg.N [] cfg.fam \in {"include", "incpos"} -> pc > 1
     [] cfg.fam = "multins" -> hop = 2 /\ pc > Len(cfg.decl)
 Finish == /\ phase = "run" /\ Finished /\ phase' = "done" /\ UNCHANGED <<cfg, nsctx, pc, hop, cur, memo, imp, sattr, out>>
-Next == Resolve \/ PopulateImports \/ Calls \/ GenNamespaces \/ Bodies \/ Include \/ MakeNamespace \/ Probe \/ Finish
+Next == Resolve \/ PopulateImports \/ Calls \/ GenNamespaces \/ Bodies \/ Include \/ IncludeAt \/ MakeNamespace \/ Probe \/ Finish
 Spec == Init /\ [][Next]_vars
 
 (* ------------------------------------------------------------------ the property *)
@@ -262,8 +294,15 @@ NamespaceDefsKeepTheirOwnSelf == (Done /\ cfg.fam = "multins") => out = SoloSeq(
 IncludeIndependent == (Done /\ cfg.fam = "include") =>
    \A k \in 1..Len(out) : /\ out[k] \in {"call|self.who", "call|local.who", "call|next.who"} => out[k + 1] \in {"who|T", "ERR"}
                           /\ out[k] = "call|parent.who" => out[k + 1] \in {"who|TB", "ERR"}
-IncludeArgsFirst == (Done /\ cfg.fam = "include" /\ cfg.tgt = "solo") =>
-   /\ cfg.pa \in {"args", "both"} => "arg|a|1" \in Toks
-   /\ cfg.pb \in {"args", "both"} => "arg|b|1" \in Toks
-   /\ cfg.pa = "ctx" => "arg|a|2" \in Toks
+(* args first, then the context visible at the include point: the page argument equals what context.get() returns in  *)
+(* the included template at that moment (the ctx token), else the default                                             *)
+ArgFromTokens(z, S) ==
+  \E c \in {-1, 2, 3, 4} : /\ "ctx|" \o z \o "|" \o ToString(c) \in Toks
+                          /\ "arg|" \o z \o "|" \o ToString(IF "args" \in S THEN 1 ELSE IF c = -1 THEN 0 ELSE c) \in Toks
+IncludeArgsFirst ==
+  /\ (Done /\ cfg.fam = "include" /\ cfg.tgt = "solo") =>
+       /\ cfg.pa \in {"args", "both"} => "arg|a|1" \in Toks
+       /\ cfg.pb \in {"args", "both"} => "arg|b|1" \in Toks
+       /\ cfg.pa = "ctx" => "arg|a|2" \in Toks
+  /\ (Done /\ cfg.fam = "incpos") => ArgFromTokens("a", cfg.sa) /\ ArgFromTokens("b", cfg.sb)
 =============================================================================
